@@ -87,6 +87,7 @@ func readDump() []dumpRec {
 const postURL = "https://h1.example/post"
 const actorURL = "https://h1.example/actor"
 const videoURL = "https://h1.example/video"
+const actor2URL = "https://h1.example/actor2"
 
 func buildWorld(link, mt string) *fedi.Net {
 	n := fedi.New()
@@ -110,6 +111,16 @@ func buildWorld(link, mt string) *fedi.Net {
 	}
 	actor["image"] = banner
 	n.Serve(actor)
+	// an actor whose picture is a Video object and whose banner is an Audio object: without a
+	// media type of its own, what such a link is says more than where it hangs
+	actor2 := fedi.Actor(actor2URL, "Bob", "bob")
+	clip := fedi.M{"type": "Video", "url": variant(link, "clip")}
+	tune := fedi.M{"type": "Audio", "url": variant(link, "tune")}
+	if mt != "" {
+		clip["mediaType"], tune["mediaType"] = mt, mt
+	}
+	actor2["icon"], actor2["image"] = clip, tune
+	n.Serve(actor2)
 	return n
 }
 
@@ -159,11 +170,15 @@ func truthMediaType(slot, mt string) (essence, super, sub string) {
 		return "video/*", "video", "*"
 	case "actor-image":
 		return "image/*", "image", "*"
+	case "actor-video":
+		return "video/*", "video", "*"
+	case "actor-audio":
+		return "audio/*", "audio", "*"
 	}
 	return "*/*", "*", "*"
 }
 
-var slotOf = map[string]string{"post:o": "link", "post:1-enter": "body", "post:2-enter": "link", "post:3-enter": "link", "video:o": "video-media", "actor:p": "actor-image", "actor:b": "actor-image"}
+var slotOf = map[string]string{"post:o": "link", "post:1-enter": "body", "post:2-enter": "link", "post:3-enter": "link", "video:o": "video-media", "actor:p": "actor-image", "actor:b": "actor-image", "actor2:p": "actor-video", "actor2:b": "actor-audio"}
 
 var entries = []entry{
 	{"post:o", postURL, "o", func(t pub.Tangible) (string, *mime.MediaType, bool) { return t.(*pub.Post).Media() }},
@@ -173,6 +188,8 @@ var entries = []entry{
 	{"video:o", videoURL, "o", func(t pub.Tangible) (string, *mime.MediaType, bool) { return t.(*pub.Post).Media() }},
 	{"actor:p", actorURL, "p", func(t pub.Tangible) (string, *mime.MediaType, bool) { return t.(*pub.Actor).ProfilePic() }},
 	{"actor:b", actorURL, "b", func(t pub.Tangible) (string, *mime.MediaType, bool) { return t.(*pub.Actor).Banner() }},
+	{"actor2:p", actor2URL, "p", func(t pub.Tangible) (string, *mime.MediaType, bool) { return t.(*pub.Actor).ProfilePic() }},
+	{"actor2:b", actor2URL, "b", func(t pub.Tangible) (string, *mime.MediaType, bool) { return t.(*pub.Actor).Banner() }},
 }
 
 func expectedArgv(hook []string, link string, mt *mime.MediaType) (argv []string, stdin string) {
@@ -220,7 +237,7 @@ func hookKey(c hookCase, what string) string {
 func runGroup(r *ev.Report, link, mt string, hooks [][]string, only *hookCase) {
 	net := buildWorld(link, mt)
 	net.W.Install()
-	pages := []string{postURL, videoURL, actorURL}
+	pages := []string{postURL, videoURL, actorURL, actor2URL}
 	for _, page := range pages {
 		var steps []entry
 		for _, e := range entries {
